@@ -103,6 +103,7 @@ func Load(dir string, extraEnv ...string) (*Prog, error) {
 			p.funcs = append(p.funcs, fn)
 		}
 	}
+	p.computeScannerFieldRoles()
 	p.Renamed = p.resolveRenames()
 	sort.Slice(p.funcs, func(i, j int) bool { return p.FuncKey(p.funcs[i]) < p.FuncKey(p.funcs[j]) })
 	p.gitStat = gitStatus(dir)
